@@ -10,11 +10,22 @@
     [last_def] / [last_given] read the value last given to a Var (by def / by def or root
     mutation) off the history alone.  [no_collision] is the executable guard "no step stores a
     module global under a Python identifier by which another name of that namespace, or the
-    module of any namespace, is looked up". *)
+    module of any namespace, is looked up".
+
+    Thread bindings (C10/BSpec.v, C10/BNames.v): an extended history is a list of [bstep]s:
+    [B s] (a step as above), [BPush m n v] (enter `(binding [m/n v] ...)`), [BPop] (leave the
+    innermost binding form); [xafter cur nss h] is the model of the code after it (the state
+    above + one thread-local store per Var + the thread's frame stack), [xsafter] the reference
+    semantics (the Var store + ONE stack of open frames), [xread] what evaluating a compiled
+    reference yields.  [innermost cur h k = Some (v, i)] reads off the history alone that the
+    innermost open binding of Var k gave it v, i = true iff no def changed k's dynamic marking
+    since that binding was entered.  [base_steps h] = the def / in-ns / ... steps of h.
+    [dyn_stable] is the executable guard "a redefinition of a Var that has open binding
+    frames keeps its dynamic marking". *)
 From Coq Require Import List NArith Bool.
 Import ListNotations.
 From Verif Require Import Common.ListX Gen.Tables C10.Munge C10.MungeProofs C10.Spec C10.Names
-  C10.Proofs C10.Theorems C10.Refuted.
+  C10.Proofs C10.Theorems C10.Refuted C10.BSpec C10.BNames C10.BProofs C10.BRefuted.
 Local Open Scope N_scope.
 
 (** ---- obligations on the table regenerated from util.py (_MUNGE_REPLACEMENTS) and on
@@ -209,6 +220,130 @@ Theorem C10_guard_holds_for_plain_defs : forall cur h,
   no_collision (minit cur [cur]) h = true.
 Proof. exact plain_defs_guard. Qed.
 
+(** ---- thread bindings of dynamic Vars (one thread) ---- *)
+(** entering and leaving bindings never changes a root, a flag, a refer, an alias or a module
+    global: the base state after an extended history is the state after its base steps *)
+Theorem C10_bindings_do_not_touch_roots : forall cur nss h,
+  base (xafter cur nss h) = after cur nss (base_steps h).
+Proof. exact base_xafter. Qed.
+
+(** the reference semantics' open frames are the ones read off the history, ALL histories *)
+Theorem C10_thread_view_is_innermost : forall cur nss h k,
+  thread_view (xsafter cur nss h) k =
+  if is_dynamic (xs_base (xsafter cur nss h)) k then option_map fst (innermost cur h k) else None.
+Proof. exact thread_view_is_innermost. Qed.
+
+(** ALL histories, both linking modes, every spelling, no guard: a read of a Var inside a
+    binding of it -- the Var having kept its dynamic marking since the binding was entered --
+    yields the value of the INNERMOST open binding, whatever defs / redefinitions / root
+    mutations / bindings of other Vars / namespace steps happened before or since *)
+Theorem C10_read_sees_innermost_binding : forall cur nss h md rns loc spl k v,
+  let st := xafter cur nss h in
+  resolve (locals_of loc) (sp (base st)) rns spl = RVar k ->
+  innermost cur h k = Some (v, true) ->
+  xread st md (RR rns loc spl) = OVal v.
+Proof. exact read_sees_innermost_binding. Qed.
+(** (only a Var marked dynamic has such a binding) *)
+Theorem C10_innermost_binding_is_of_dynamic_var : forall cur nss h k v,
+  innermost cur h k = Some (v, true) -> is_dynamic (sp (base (xafter cur nss h))) k = true.
+Proof. exact innermost_is_dynamic. Qed.
+
+(** ALL histories: a Var without an open binding, and every Var not marked dynamic (they ignore
+    bindings), reads as in the binding-free theorems above, applied to the defs / root
+    mutations of the history: [C10_read_root], [C10_read_after_def_partial], ... *)
+Theorem C10_read_without_binding : forall cur nss h md rq k,
+  let st := xafter cur nss h in
+  (let '(RR rns loc spl) := rq in resolve (locals_of loc) (sp (base st)) rns spl = RVar k) ->
+  innermost cur h k = None \/ is_dynamic (sp (base st)) k = false ->
+  xread st md rq = read (after cur nss (base_steps h)) md rq.
+Proof. exact read_without_binding. Qed.
+
+(** ALL histories [h] before and [s] after: entering a binding of a dynamic Var, running any
+    defs / redefinitions (with or without ^:dynamic) / root mutations / namespace steps [t]
+    and leaving it, every later read is what it would be had the binding never been entered,
+    root changes made by [t] included.  Nested and enclosing bindings: [h] and [s] are
+    arbitrary, remove the innermost pair first. *)
+Theorem C10_binding_balanced : forall cur nss h m n v t s md rq,
+  is_dynamic (sp (base (xafter cur nss h))) (m, n) = true ->
+  forallb is_base t = true ->
+  xread (xafter cur nss (h ++ BPush m n v :: t ++ BPop :: s)) md rq
+  = xread (xafter cur nss (h ++ t ++ s)) md rq.
+Proof. exact binding_balanced. Qed.
+(** the whole state is restored: same base state, same frame stack, same store for every Var *)
+Theorem C10_binding_balanced_state : forall cur nss h m n v t,
+  is_dynamic (sp (base (xafter cur nss h))) (m, n) = true ->
+  forallb is_base t = true ->
+  let a := xafter cur nss (h ++ BPush m n v :: t ++ [BPop]) in
+  let b := xafter cur nss (h ++ t) in
+  base a = base b /\ mframes (bs a) = mframes (bs b) /\ forall k, stack_of (bs a) k = stack_of (bs b) k.
+Proof. exact binding_balanced_state. Qed.
+
+(** under the guards the model of the code meets the reference semantics: every read is
+    accepted by [bread_ok] (innermost open frame of a dynamic Var, else [read_ok]), and every
+    step -- entering and leaving bindings included -- succeeds in the one iff in the other *)
+Theorem C10_model_meets_spec_bind_partial : forall cur nss h md rq,
+  no_collision (minit cur nss) (base_steps h) = true ->
+  priv_stable (init cur nss) (base_steps h) = true ->
+  dyn_stable (xsinit cur nss) h = true ->
+  bread_ok (xsafter cur nss h) md rq (xread (xafter cur nss h) md rq) = true.
+Proof. exact model_meets_spec_bind_partial. Qed.
+Theorem C10_steps_agree_partial : forall cur nss h s,
+  dyn_stable (xsinit cur nss) h = true ->
+  snd (xexec (xafter cur nss h) s) = snd (xsexec (xsafter cur nss h) s).
+Proof. exact steps_agree_partial. Qed.
+
+(** without [dyn_stable] (finding F-10e): once a def has changed the dynamic marking of a bound
+    Var, its open bindings are not seen any more -- ALL histories -- ... *)
+Theorem C10_read_after_marking_change : forall cur nss h md rq k v,
+  let st := xafter cur nss h in
+  (let '(RR rns loc spl) := rq in resolve (locals_of loc) (sp (base st)) rns spl = RVar k) ->
+  innermost cur h k = Some (v, false) ->
+  xread st md rq = read (after cur nss (base_steps h)) md rq.
+Proof. exact read_after_marking_change. Qed.
+(** ... although the Var may be dynamic again and still inside its binding form: the read
+    yields the root, and leaving the form raises.  The other two guards hold. *)
+Theorem C10_binding_survives_marking_change_refuted :
+  exists cur nss h md rns spl k v,
+    let st := xafter cur nss h in
+    let xs := xsafter cur nss h in
+    resolve [] (sp (base st)) rns spl = RVar k /\ is_dynamic (sp (base st)) k = true /\
+    thread_view xs k = Some v /\
+    xread st md (RR rns None spl) <> OVal v /\
+    bread_ok xs md (RR rns None spl) (xread st md (RR rns None spl)) = false /\
+    snd (xexec st BPop) <> snd (xsexec xs BPop) /\
+    no_collision (minit cur nss) (base_steps h) = true /\ priv_stable (init cur nss) (base_steps h) = true.
+Proof. exact binding_survives_marking_change_refuted. Qed.
+
+(** the guards and premises are met: nested bindings of two Vars, redefinition and root mutation
+    inside, reads from two namespaces; then the forms are left one by one *)
+Example C10_bind_guards_nonvacuous :
+  no_collision (minit U [U; X]) (base_steps h_out) = true /\
+  priv_stable (init U [U; X]) (base_steps h_out) = true /\
+  dyn_stable (xsinit U [U; X]) h_out = true.
+Proof. exact bind_guards_nonvacuous. Qed.
+Example C10_bind_reads_inside :
+  let st := xafter U [U; X] h_in in
+  innermost U h_in (U, dv) = Some (6, true) /\ innermost U h_in (U, dw) = Some (70, true) /\
+  innermost U h_in (U, Refuted.v) = None /\
+  last_given U (base_steps h_in) (U, dv) None = Some 4 /\
+  xread st Direct (RR U None (Bare dv)) = OVal 6 /\ xread st Indirect (RR U None (Bare dv)) = OVal 6 /\
+  xread st Direct (RR X None (Qual U dv)) = OVal 6 /\
+  xread st Direct (RR U None (Bare dw)) = OVal 70 /\
+  xread st Direct (RR U None (Bare Refuted.v)) = OVal 8 /\
+  xread st Direct (RR U (Some (dv, 77)) (Bare dv)) = OVal 77.
+Proof. exact bind_reads_inside. Qed.
+Example C10_bind_reads_after :
+  let st1 := xafter U [U; X] (h_in ++ [BPop]) in
+  let st2 := xafter U [U; X] (h_in ++ [BPop; BPop]) in
+  let st := xafter U [U; X] h_out in
+  xread st1 Direct (RR U None (Bare dv)) = OVal 5 /\
+  xread st2 Direct (RR U None (Bare dw)) = OVal 7 /\
+  innermost U h_out (U, dv) = None /\
+  xread st Direct (RR X None (Qual uu dv)) = OVal 9 /\
+  xread st Indirect (RR X None (Qual U dv)) = OVal 9 /\
+  snd (xexec st BPop) = false.
+Proof. exact bind_reads_after. Qed.
+
 Print Assumptions C10_table_values_shape.
 Print Assumptions C10_table_keys_distinct.
 Print Assumptions C10_table_values_distinct.
@@ -237,3 +372,17 @@ Print Assumptions C10_ns_collision_attribute_error.
 Print Assumptions C10_guards_nonvacuous.
 Print Assumptions C10_modes_agree_nonvacuous.
 Print Assumptions C10_guard_holds_for_plain_defs.
+Print Assumptions C10_bindings_do_not_touch_roots.
+Print Assumptions C10_thread_view_is_innermost.
+Print Assumptions C10_read_sees_innermost_binding.
+Print Assumptions C10_innermost_binding_is_of_dynamic_var.
+Print Assumptions C10_read_without_binding.
+Print Assumptions C10_binding_balanced.
+Print Assumptions C10_binding_balanced_state.
+Print Assumptions C10_model_meets_spec_bind_partial.
+Print Assumptions C10_steps_agree_partial.
+Print Assumptions C10_read_after_marking_change.
+Print Assumptions C10_binding_survives_marking_change_refuted.
+Print Assumptions C10_bind_guards_nonvacuous.
+Print Assumptions C10_bind_reads_inside.
+Print Assumptions C10_bind_reads_after.
